@@ -31,9 +31,11 @@ inductive Ev (t : Tables) : LOp → Rc → Option Nat → Tables → Prop
   | nbwInit (fd c : Nat) (x : Writer) (hid : x.id = c) (hfd : x.fd = fd) (hc : x.curr = none) (hres : x.reserved = false)
       (hf : ∀ a ∈ t.writers, a.id ≠ c) :
       Ev t (.nbwInit fd) .ok (some c) { t with writers := x :: t.writers }
-  | http (a : List AddrOutcome) (l s x hd c : Nat) (k : Conn) (hk : k.cookie = c)
+  /-- `http_request` / `https_request` (`ho`: the duplicated host name of the latter) -/
+  | http (c0 : LOp) (a : List AddrOutcome) (l s x hd c : Nat) (ho : Option Nat) (k : Conn)
+      (hc0 : c0 = .http a l s ∨ ∃ hl, c0 = .https a l s hl) (hk : k.cookie = c)
       (hfc : ∀ a ∈ t.conns, a.cookie ≠ c) (hfx : ∀ a ∈ t.https, a.cookie ≠ x) :
-      Ev t (.http a l s) .ok (some x) { t with https := ⟨x, hd, some c⟩ :: t.https, conns := k :: t.conns }
+      Ev t c0 .ok (some x) { t with https := ⟨x, hd, some c, ho⟩ :: t.https, conns := k :: t.conns }
   | readCancel (c : Nat) (hun : ∀ r ∈ t.readers, r.readCookie ≠ some c) :
       Ev t (.readCancel c) .ok none { t with reads := t.reads.filter (fun x => x.cookie != c) }
   | writeCancel (c : Nat) (hun : ∀ x ∈ t.writers, x.curr.map (·.2) ≠ some c) :
@@ -226,7 +228,30 @@ theorem ev_http (w : World) (a : List AddrOutcome) (l s : Nat) (hI : Inv w) :
     rw [ht] at hndc hndx ⊢
     have hf := fresh_of_nodup Conn.cookie hndc
     rw [Run.connEntry_cookie] at hf
-    exact Ev.http a l s x hd c _ (Run.connEntry_cookie c a none s) hf (fresh_of_nodup Http.cookie hndx)
+    exact Ev.http _ a l s x hd c none _ (Or.inl rfl) (Run.connEntry_cookie c a none s) hf (fresh_of_nodup Http.cookie hndx)
+
+theorem ev_https (w : World) (a : List AddrOutcome) (l s hl : Nat) (hI : Inv w) :
+    Ev (tables w) (.https a l s hl) (stepR w (.https a l s hl)).1 (call w (.https a l s hl)).2.1
+      (tables (stepR w (.https a l s hl)).2) := by
+  obtain ⟨_, _, hfail, hok, _, _⟩ := httpsRequest_spec w a l s hl hI.toInv0
+  have hI' := stepR_inv w (.https a l s hl) hI
+  rcases h : httpsRequest w a l s hl with ⟨_ | x, w'⟩
+  · rw [h] at hfail
+    simp only [stepR, call, h]
+    rw [(hfail rfl).tables]
+    exact Ev.same _ _ rfl
+  · rw [h] at hok
+    simp only [stepR, h] at hI'
+    simp only [stepR, call, h]
+    obtain ⟨sh, hd, c, _, ht, _⟩ := hok x rfl
+    have hndc := (nd_of_inv hI').2.2.2.1
+    have hndx := (nd_of_inv hI').2.2.2.2.2.2
+    simp only at ht
+    rw [ht] at hndc hndx ⊢
+    have hf := fresh_of_nodup Conn.cookie hndc
+    rw [Run.connEntry_cookie] at hf
+    exact Ev.http _ a l s x hd c (some sh) _ (Or.inr ⟨hl, rfl⟩) (Run.connEntry_cookie c a none s) hf
+      (fresh_of_nodup Http.cookie hndx)
 
 theorem ev_readCancel (w : World) (c : Nat) (hI : Inv w) (hnc : (stepR w (.readCancel c)).1 ≠ .contract) :
     Ev (tables w) (.readCancel c) (stepR w (.readCancel c)).1 (call w (.readCancel c)).2.1
@@ -477,6 +502,7 @@ theorem ev_stepR (w : World) (c0 : LOp) (hI : Inv w) (hnc : (stepR w c0).1 ≠ .
   | nbrInit fd => exact ev_nbrInit w fd hI
   | nbwInit fd => exact ev_nbwInit w fd hI
   | http a l s => exact ev_http w a l s hI
+  | https a l s hl => exact ev_https w a l s hl hI
   | readCancel c => exact ev_readCancel w c hI hnc
   | writeCancel c => exact ev_writeCancel w c hI hnc
   | acceptCancel c => exact ev_acceptCancel w c hI hnc
